@@ -22,6 +22,9 @@ Oracle (value cases)
   3. the slice handed to deserialize must afterwards hold exactly the tail.
          <Type>/consumed-too-little/<ctor>   bits or references of the value are left in front of the tail
          <Type>/consumed-too-much/<ctor>     part of the tail was eaten
+  4. two-threads-blk-parsers: for every row of the constructor grid 3 hash-chosen values of that row are encoded (+ tail) into
+     cells one after the other; 4 threads then parse these cells in tight loops at the same time (core.hammer, switch interval
+     1 us). Every parse must yield the fields and the remaining slice the same parse yields alone.   two-threads/<Type>/<ctor>
   Naming the root cause. (a) The slice handed to the parser records its position after every outermost load_* call. When a
   case FAILS one of 1-3 and the parser at some point stood at a position that is not a field boundary of the encoded
   value, the case is reported once, as  <Type>/<ctor>/diverges-after/<last boundary it was at>  (a parser that lost the
@@ -73,7 +76,8 @@ RULE = ('blk: case = a reftlb-generated value of one of the covered block-level 
         'combinations of not_master, after_merge, vert_seqno_incr, flags.0; ValueFlow v1/v2; ShardDescr old/new x fsm_none/'
         'split/merge; ValidatorSet #11/#12 x validator#53/#73 x 0/1/2/3/6 entries; CatchainConfig #c1/#c2; McStateExtra flags x '
         'last_key_block x both BlockCreateStats; McBlockExtra key_block x Maybe x Maybe; ...) with hash-chosen and min/max '
-        'values; blk-random draws type and value with Hypothesis. non-trivial = a non-first constructor, an optional / '
+        'values; blk-random draws type and value with Hypothesis. two-threads-blk-parsers: per grid row 3 hash-chosen values, prepared '
+        'as cells, parsed by 4 threads in tight loops at the same time, each parse compared with the same parse made alone. non-trivial = a non-first constructor, an optional / '
         'conditional field present, or an unsigned integer with its top bit set; distinct = distinct case. '
         'blk-real-block: one fixed case per compared component of the bundled main-net block')
 
@@ -1011,6 +1015,70 @@ def classify_real(case):
     return ['component=' + case['component']]
 
 
+# --------------------------------------------------------------------------------------------------
+# parsers called by several threads at the same time
+
+HAMMER_ROUNDS = {'Block': 4, 'ShardStateUnsplit': 6, 'McStateExtra': 8, 'McBlockExtra': 10, 'BlockExtra': 8, 'ShardHashes': 12,
+                 'ConfigParams': 12, 'ValidatorSet': 12, 'BlockInfo': 25, 'ValueFlow': 20, 'ShardDescr': 25}
+
+
+def _reading(case):
+    """('<Type>/<ctor>', thunk): the thunk parses the prepared cell (value + tail) through the type's entry point and returns, as
+    text, every schema field read from the result and what is left in the slice"""
+    from harness.gen.dag import lib_from_rcell
+    name = case['type']
+    t = TYPES[name][0]
+    cell, _, _ = build(case)
+    lc = lib_from_rcell(cell)
+    parse = _lib(name)
+    exp = R.strip_either(case['v'])
+
+    def thunk():
+        s = lc.begin_parse()
+        obj = parse(s)
+        rb, rr, _ = _rest_of(s)
+        return repr((conv(t, exp, obj, R.Ctx()), rb, [c.repr_hash().hex() for c in rr]))
+    return f'{type_name(name)}/{ctor_label(case["v"])}', thunk
+
+
+def check_hammer(case):
+    """several values of ONE covered type (one constructor alternative / flag combination) are encoded into cells one after the
+    other; then 4 threads parse these cells in tight loops at the same time (core.hammer: nothing but the parser calls overlaps).
+    Every call must return what the same call returns alone: the fields of ITS value, ITS tail left over."""
+    from harness.core import hammer
+    calls = [_reading(it) for it in case['items']]
+    if len(calls) < 2:
+        return None
+    return hammer(calls, threads=4, rounds=case.get('rounds') or min(HAMMER_ROUNDS.get(it['type'], 40) for it in case['items']))
+
+
+def enum_hammer(tier):
+    """every row of the constructor grid (constructor alternative x flag / optional-field combination of every covered type):
+    3 hash-chosen values of that row - all threads are inside the same parser branch, with different field values"""
+    reps = 1 if tier == 'quick' else 6
+    for rep in range(reps):
+        for name, label, gt in grid():
+            budget = 2
+            if isinstance(gt, tuple):
+                gt, budget = gt
+            items = []
+            for i in range(3):
+                try:
+                    items.append(gen_case(R.HashChooser(f'c16-blk-hammer/{rep}/{name}/{label}/{i}'), name, gt, budget))
+                except R.ModelError:
+                    pass
+            if len(items) >= 2:
+                yield {'items': items, 'row': f'{name}: {label}'}
+
+
+def classify_hammer(case):
+    out = ['hammer:parsers']
+    for it in case['items']:
+        out.append('type=' + it['type'])
+        out.append('ctor=' + ctor_label(it['v']))
+    return out
+
+
 SUBCHECKS = [
     Sub('blk-ctor-grid', check_value, enum=enum_grid, classify=classify, nontrivial=nontrivial, shards=(16, 16),
         note='every constructor alternative x flag / optional-field combination of the covered block-level types, hash-chosen '
@@ -1022,4 +1090,9 @@ SUBCHECKS = [
     Sub('blk-real-block', check_real_block, enum=enum_real, classify=classify_real, exhaustive=True, shards=(3, 3),
         note='the main-net block of tests/test_cell.py decoded by refboc + reftlb, compared component by component with '
              'Block.deserialize'),
+    Sub('two-threads-blk-parsers', check_hammer, enum=enum_hammer, classify=classify_hammer, nontrivial=lambda case: True,
+        shards=(8, 16), case_cpu_s=120.0,
+        note='every row of the constructor grid: 3 values of that row encoded into cells, then parsed by 4 threads in tight loops '
+             'at the same time (core.hammer, switch interval 1 us). Oracle = the fields and the remaining slice each parse yields '
+             'alone'),
 ]
